@@ -38,7 +38,7 @@ ASSUMPTIONS = ['the geometry of every initial mesh is affine per element (verifi
                'the bisection-based trimming is exact and a tolerance of 1e-9 separates rounding from defects',
                'element geometry is observed from references + transform chains (nutils.transform.apply, TransformBasis._transform_basis) and the '
                'per-element affine geometry; the native observations topo.integrate_elementwise(J) and boundary.integrate([nJ, x.nJ, J]) are '
-               'evaluated on every state of depth <= 1, on a deterministic 1/8 sample of the deeper states and on every candidate violation, and must '
+               'evaluated on every state of depth <= 1, on a deterministic 1/16 sample of the deeper states and on every candidate violation, and must '
                'agree with the fast observation (disagreement is a harness error)',
                'an operation that raises is a loud failure (counted in distinct_outcomes), not a violation of "never silently lose"',
                'slicing a hierarchical topology slices its base grid; groups of refined/trimmed topologies contain the descendants of the group']
@@ -63,7 +63,7 @@ class Ctx:
             gmap = OB.GeoMap(topo, geom)
             ytopo, y = TS.second_factor()
             ymap = OB.GeoMap(ytopo, y)
-            cls.cache[mesh] = dict(topo=topo, geom=geom, gmaps={topo.space: gmap, ytopo.space: ymap}, ytopo=ytopo, y=y)
+            cls.cache[mesh] = dict(topo=topo, geom=geom, gmaps={topo.space: gmap, ytopo.space: ymap}, ytopo=ytopo, y=y, multiadj=False)
         return cls.cache[mesh]
 
 
@@ -130,7 +130,7 @@ class State:
                 bgroups.append('trimmed')
         if kind == 'domain':
             vgroups = sorted(TS.VGROUPS.get(self.mesh, {}))
-        return dict(mesh=self.mesh, n=len(self.elems), kind=kind, structured=(kind == 'domain' and is_structured(self.topo)),
+        return dict(mesh=self.mesh, n=len(self.elems), kind=kind, topdim=(self.elems[0].k if self.elems else 0), structured=(kind == 'domain' and is_structured(self.topo)),
                     ndims=self.ms.d, bgroups=bgroups, vgroups=vgroups)
 
     def history(self):
@@ -139,7 +139,8 @@ class State:
 
 def elem_cell(pe):
     'the untrimmed shape of an observed element as a model cell'
-    return G.Cell(pe.kind, pe.v0, pe.E)
+    atomic = [f.refname == 'OwnChildReference' for f in pe.factors for _ in f.kind]
+    return G.Cell(pe.kind, pe.v0, pe.E, atomic=atomic if any(atomic) else None)
 
 
 def elem_keys(elems):
@@ -180,6 +181,7 @@ def initial_state(mesh):
     ft = M.FaceTable(list(st.ms.cells.items()), st.ms.periods)
     if ft.overlap_same > TOL or max(abs(x) for x in ft.nflux) > TOL:
         raise core.HarnessError('initial mesh {}: model is not a partition'.format(mesh))
+    ctx['multiadj'] = ft.multi_adjacent()
     return st
 
 
@@ -206,39 +208,45 @@ def model_apply(st, op):
         spaces = set(op[1])
         if not spaces & {'X', 'Y'}:
             return ms, grid
-        mask = [('X' in spaces) if i < nf else ('Y' in spaces) for i in range(len(some.kind))]
-        return M.refined(ms, mask=mask), grid
+        # the line of the product is always the LAST simplex factor of a cell (mixed meshes: the number of X factors varies)
+        out = {}
+        for key, c in ms.cells.items():
+            mask = [('X' in spaces)] * (len(c.kind) - 1) + [('Y' in spaces)]
+            for ch in M.children(c, mask):
+                out[ch.key] = ch
+        return ms.derive(out), grid
     if name == 'refined_by':
-        keys = set(st.keys[i] for i in op[1])
+        keys = set(st.keys[i] for i in op[1]) - {None}
         return M.refined(ms, keys=keys), grid
     if name in ('take', 'compress'):
         idx = op[1] if name == 'take' else [i for i, b in enumerate(op[1]) if b]
-        keys = set(st.keys[i] for i in idx)
+        keys = set(st.keys[i] for i in idx) - {None}
         return M.select(ms, keys, periodic_ok=ms.periodic_ok and (not ms.periods or len(keys) == len(ms.cells))), None
     if name == 'union':
-        keys = set(st.keys[i] for i in list(op[1]) + list(op[2]))
+        keys = set(st.keys[i] for i in list(op[1]) + list(op[2])) - {None}
         return M.select(ms, keys, periodic_ok=ms.periodic_ok and (not ms.periods or len(keys) == len(ms.cells))), None
     if name == 'diff':
-        keys = set(st.keys[i] for i in op[1])
+        keys = set(st.keys[i] for i in op[1]) - {None}
         return M.remove(ms, keys, periodic_ok=ms.periodic_ok and not ms.periods), None
     if name == 'slice':
         if grid is None:
             raise M.ModelUndefined('slice without a structured grid')
         dim = op[2]
-        meta = TS.META[st.mesh]
-        lo = G.exact(meta['lo'][dim])
-        hi = G.exact(meta['hi'][dim])
-        n = int((hi - lo) / grid[dim])
-        sel = range(n)[slice(*op[1])]
-        keep = set(sel)
-        keys = []
+        if not ms.cells:
+            raise M.ModelUndefined('slice of an empty topology')
+        g = grid[dim]
+        lo = min(v[dim] for cell in ms.cells.values() for v in cell.base_verts)
+        covered = {}
         for key, cell in ms.cells.items():
             xs = [v[dim] for v in cell.base_verts]
-            i0 = (min(xs) - lo) / grid[dim]
-            i1 = (max(xs) - lo) / grid[dim]
-            first = math.floor(i0)
-            if math.floor(i0) in keep and i1 <= first + 1:
-                keys.append(key)
+            i0 = math.floor((min(xs) - lo) / g)
+            if (max(xs) - lo) / g > i0 + 1:
+                raise M.ModelUndefined('cell larger than the base grid')
+            covered.setdefault(i0, []).append(key)
+        L = sorted(covered)
+        n = len(L)
+        keep = set(L[i] for i in range(n)[slice(*op[1])])
+        keys = [key for i0 in keep for key in covered[i0]]
         full = len(keep) == n
         if full or dim not in periodic_dims_of(ms):
             return M.select(ms, keys), grid
@@ -290,10 +298,13 @@ def compare_cells(ms, elems, allow_hull=False):
     is the model key of element i (None if unmatched)'''
     out = []
     keys = []
-    if len(elems) != len(ms.cells):
-        out.append(('len', 'len(topo) = {} but the model has {} cells'.format(len(elems), len(ms.cells))))
     seen = {}
+    nempty = 0
     for i, pe in enumerate(elems):
+        if pe.vol == 0 and pe.vol_ref == 0 and any(f.refname == 'EmptyLike' for f in pe.factors):
+            keys.append(None)       # an element with an empty reference: no part of the domain
+            nempty += 1
+            continue
         key = elem_cell(pe).key
         cell = ms.cells.get(key)
         if cell is None and allow_hull:
@@ -324,14 +335,14 @@ def compare_cells(ms, elems, allow_hull=False):
                     break
     missing = [k for k in ms.cells if k not in seen]
     if missing and not out:
-        out.append(('missing-element', '{} model cells have no element'.format(len(missing))))
+        out.append(('missing-element', 'len(topo) = {} ({} with an empty reference) but the model has {} cells: {} cells have no element'.format(
+            len(elems), nempty, len(ms.cells), len(missing))))
     return out, keys
 
 
-def boundary_oracle(st_ms, elems_b, ft, periodic_dims):
-    'closedness of an observed boundary against the model (ft = FaceTable of the model state)'
+def boundary_oracle(d, vol, elems_b, ft, periodic_dims):
+    'closedness of an observed boundary: oint n J = 0, oint x.n J = d |Omega|; with a FaceTable also the total measure'
     out = []
-    d = st_ms.d
     flux = numpy.zeros(d)
     Mx = numpy.zeros((d, d))
     total = 0.
@@ -339,19 +350,18 @@ def boundary_oracle(st_ms, elems_b, ft, periodic_dims):
         flux += pe.flux
         Mx += pe.M
         total += pe.vol
-    vol = st_ms.total()
+    vals = dict(flux=flux, xn=float(numpy.trace(Mx)), total=total)
     if abs(flux).max() > TOL:
         out.append(('boundary-open', 'oint n J = {} != 0 over the boundary ({} elements, |Omega| = {})'.format(fmt(flux), len(elems_b), fmt(vol))))
-        return out, dict(flux=flux, xn=float(numpy.trace(Mx)), total=total)
-    if periodic_dims:
+    elif periodic_dims:
         bad = [j for j in range(d) if j not in periodic_dims and abs(Mx[j, j] - vol) > TOL]
         if bad:
-            out.append(('boundary-flux', 'oint x_j n_j J = {} != |Omega| = {} for the non-periodic directions'.format(fmt([Mx[j, j] for j in bad]), fmt(vol))))
+            out.append(('boundary-open', 'oint n J = 0 but oint x_j n_j J = {} != |Omega| = {} for the non-periodic directions'.format(fmt([Mx[j, j] for j in bad]), fmt(vol))))
     elif abs(numpy.trace(Mx) - d * vol) > TOL:
-        out.append(('boundary-flux', 'oint x.n J = {} != d |Omega| = {}'.format(fmt(numpy.trace(Mx)), fmt(d * vol))))
-    if not out and abs(total - ft.total_exposed) > TOL:
+        out.append(('boundary-open', 'oint n J = 0 but oint x.n J = {} != d |Omega| = {}'.format(fmt(numpy.trace(Mx)), fmt(d * vol))))
+    if not out and ft is not None and abs(total - ft.total_exposed) > TOL:
         out.append(('boundary-measure', 'total measure of the boundary {} != exposed facet measure of the cells {}'.format(fmt(total), fmt(ft.total_exposed))))
-    return out, dict(flux=flux, xn=float(numpy.trace(Mx)), total=total)
+    return out, vals
 
 
 def interface_oracle(st_ms, keys, elems_i, parents, ft):
@@ -413,6 +423,7 @@ class Outcome:
         self.violations = []      # (key, text)
         self.loud = []            # strings
         self.notes = []
+        self.checked = []         # names of the oracles that were evaluated
 
 
 def periodic_dims_of(ms):
@@ -440,8 +451,8 @@ def check_domain_extras(st2, oc, native=False, confirm=False):
         raise core.HarnessError('model cells overlap in {}'.format(st2.history()))
     if max(abs(x) for x in ft.nflux) > 1e-8:
         raise core.HarnessError('model boundary is not closed in {}: {}'.format(st2.history(), ft.nflux))
-    multi = ':multiadj' if ft.multi_adjacent() else ''
     s = sig(topo)
+    multi = ''
     # boundary
     try:
         with quiet():
@@ -457,10 +468,18 @@ def check_domain_extras(st2, oc, native=False, confirm=False):
         if any(pe.codim != 1 for pe in elems_b):
             oc.violations.append(('boundary-dimension:' + s, 'boundary contains elements that are not of codimension 1'))
         else:
-            v, vals = boundary_oracle(ms, elems_b, ft, periodic_dims_of(ms))
+            v, vals = boundary_oracle(ms.d, ms.total(), elems_b, ft, periodic_dims_of(ms))
+            oc.checked.append('boundary')
+            nat = None
             if native or (v and confirm):
-                with quiet():
-                    nf, nxn, ntot = OB.native_boundary(btopo, st2.geom)
+                try:
+                    with quiet():
+                        nat = OB.native_boundary(btopo, st2.geom)
+                except Exception as e:
+                    oc.loud.append('integrate-boundary:{}:{}'.format(s, type(e).__name__))
+            if nat is not None:
+                oc.checked.append('native_boundary')
+                nf, nxn, ntot = nat
                 if abs(nf - vals['flux']).max() > 1e-8 or abs(ntot - vals['total']) > 1e-8 or abs(nxn - vals['xn']) > 1e-8:
                     raise core.HarnessError('native boundary integrals {} {} {} differ from the fast observation {} {} {} in {}'.format(
                         nf, nxn, ntot, vals['flux'], vals['xn'], vals['total'], st2.history()))
@@ -482,11 +501,12 @@ def check_domain_extras(st2, oc, native=False, confirm=False):
         if any(pe.codim != 1 for pe in elems_i):
             oc.violations.append(('interfaces-dimension:' + s, 'interfaces contain elements that are not of codimension 1'))
         else:
+            oc.checked.append('interfaces')
             for k, t in interface_oracle(ms, st2.keys, elems_i, parents, ft):
                 oc.violations.append((k + ':' + s + multi, t))
 
 
-def trim_pair_oracle(st, op, oc):
+def trim_pair_oracle(st, op, oc, done=None):
     '''trim and complement of the same level set: each is compared with the model, per element they partition the
     original measure, and the cut appears in both boundaries with opposite orientation'''
     from .. import c10_observe as OB
@@ -496,9 +516,12 @@ def trim_pair_oracle(st, op, oc):
     res = {}
     for name, sign in (('trim', 1), ('trimc', -1)):
         try:
-            with quiet():
-                topo2, geom2 = TS.apply_op(st.topo, st.geom, [name, a, c, m])
-                elems = OB.observe_any(topo2, ctx['gmaps'])
+            if done is not None and name == 'trim':
+                topo2, elems = done
+            else:
+                with quiet():
+                    topo2, geom2 = TS.apply_op(st.topo, st.geom, [name, a, c, m])
+                    elems = OB.observe_any(topo2, ctx['gmaps'])
         except OB.Unsupported as e:
             oc.notes.append('unobservable:{}:{}'.format(name, e))
             return
@@ -511,6 +534,7 @@ def trim_pair_oracle(st, op, oc):
             return          # reported by the trim / trimc transition itself
         res[name] = (topo2, elems, keys, ms2)
     # partition per original cell
+    oc.checked.append('trim_partition')
     for key, cell in st.ms.cells.items():
         parts = 0.
         for name in res:
@@ -556,13 +580,77 @@ def trim_pair_oracle(st, op, oc):
             xn += float(numpy.trace(pe.M))
             tot += pe.vol
         obs[name] = (flux, xn, tot)
-    multi = ':multiadj' if ft.multi_adjacent() else ''
-    sg = sig(res['trim'][0]) + multi
+    sg = sig(res['trim'][0])
+    oc.checked.append('trim_cut')
     (f1, x1, t1), (f2, x2, t2) = obs['trim'], obs['trimc']
     if abs(t1 - cut) > TOL or abs(t2 - cut) > TOL:
         oc.violations.append(('trim-cut-measure:' + sg, "measure of boundary['trimmed'] is {} for the trim and {} for the complement, the cut measures {}".format(fmt(t1), fmt(t2), fmt(cut))))
     elif abs(f1 + f2).max() > TOL or (not st.ms.periods and abs(x1 + x2) > TOL):
         oc.violations.append(('trim-cut-orientation:' + sg, 'the cut is not shared with opposite orientation: int n = {} vs {}, int x.n = {} vs {}'.format(fmt(f1), fmt(f2), fmt(x1), fmt(x2))))
+
+
+def relational_trim(st, op, topo2, elems2, oc):
+    '''trimming an already trimmed topology: the position of the second cut is binned to 1/256 of the SHORTENED edges, so
+    the exact model does not apply.  Checked without a prediction: the trim and its complement partition the measure of
+    every element, stay inside it, and the boundary of the result is closed with respect to its own measure.'''
+    from .. import c10_observe as OB
+    ctx = Ctx.get(st.mesh)
+    name, a, c, m = op
+    other = 'trimc' if name == 'trim' else 'trim'
+    s2 = sig(topo2)
+    try:
+        with quiet():
+            topo3, geom3 = TS.apply_op(st.topo, st.geom, [other, a, c, m])
+            elems3 = OB.observe_any(topo3, ctx['gmaps'])
+    except OB.Unsupported as e:
+        oc.notes.append('unobservable:{}:{}'.format(other, e))
+        return
+    except Exception as e:
+        oc.loud.append('{}:{}:{}'.format(other, sig(st.topo), type(e).__name__))
+        return
+    oc.notes.append('relational:trim-after-trim')
+    parts = {}
+    for elems in (elems2, elems3):
+        seen = set()
+        for i, pe in enumerate(elems):
+            if pe.vol == 0 and any(f.refname == 'EmptyLike' for f in pe.factors):
+                continue
+            key = elem_cell(pe).key
+            cell = st.ms.cells.get(key)
+            if cell is None:
+                oc.violations.append(('unexpected-element:' + s2, 'element {} of the trimmed topology is not an element of the topology that was trimmed'.format(i)))
+                return
+            if key in seen:
+                oc.violations.append(('duplicate-element:' + s2, 'element {} occurs twice'.format(i)))
+                return
+            seen.add(key)
+            if abs(pe.vol - pe.vol_ref) > TOL:
+                oc.violations.append(('reference-volume:' + s2, 'element {}: reference volume x jacobian {} != measure of its pieces {}'.format(i, fmt(pe.vol_ref), fmt(pe.vol))))
+                return
+            if cell.k == cell.d and not all(cell.contains(p, TOL) for p in pe.points):
+                oc.violations.append(('element-shape:' + s2, 'element {} sticks out of the element it was trimmed from'.format(i)))
+                return
+            parts[key] = parts.get(key, 0.) + pe.vol
+    for key, cell in st.ms.cells.items():
+        if abs(parts.get(key, 0.) - cell.measure) > TOL:
+            oc.violations.append(('trim-partition:' + s2, 'trim + complement of an element measure {} != {}'.format(fmt(parts.get(key, 0.)), fmt(cell.measure))))
+            return
+    if st.ms.periods and not st.ms.periodic_ok:
+        return
+    try:
+        with quiet():
+            elems_b = OB.observe_any(topo2.boundary, ctx['gmaps'])
+    except OB.Unsupported as e:
+        oc.notes.append('unobservable:boundary:{}'.format(e))
+        return
+    except Exception as e:
+        oc.loud.append('boundary:{}:{}'.format(s2, type(e).__name__))
+        return
+    if elems2 and all(pe.codim == 1 for pe in elems_b):
+        vol = sum(pe.vol for pe in elems2)
+        v, vals = boundary_oracle(st.ms.d, vol, elems_b, None, periodic_dims_of(st.ms))
+        for k, t in v:
+            oc.violations.append((k + ':' + s2, t))
 
 
 def transition(st, op, native=False, confirm=False):
@@ -591,11 +679,17 @@ def transition(st, op, native=False, confirm=False):
                 pass
         oc.loud.append('{}:{}:{}'.format(name, s0, type(e).__name__))
         return None, oc
-    try:
-        ms2, grid2 = model_apply(st, op)
-    except M.ModelUndefined as e:
-        oc.notes.append('model-undefined:{}:{}'.format(name, e))
+    if name in ('trim', 'trimc') and st.has_trim:
+        relational_trim(st, op, topo2, elems2, oc)
         return None, oc
+    if name in ('boundary', 'interfaces'):
+        ms2, grid2 = None, None
+    else:
+        try:
+            ms2, grid2 = model_apply(st, op)
+        except M.ModelUndefined as e:
+            oc.notes.append('model-undefined:{}:{}'.format(name, e))
+            return None, oc
     st2 = State()
     st2.mesh = st.mesh
     st2.ops = st.ops + [op]
@@ -637,14 +731,20 @@ def transition(st, op, native=False, confirm=False):
             raise core.HarnessError('adopted manifold state does not match itself: {} in {}'.format(v[:2], st2.history()))
         st2.keys = keys
         return st2, oc
+    oc.checked.append('cells')
     st2.ms = ms2
     st2.kind = 'product' if (name == 'mul' or st.kind == 'product') else st.kind
     v, keys = compare_cells(ms2, elems2, allow_hull=(st2.kind == 'manifold'))
     st2.keys = keys
     if native or (v and confirm):
-        if st2.kind != 'manifold' or True:
+        nat = None
+        try:
             with quiet():
                 nat = OB.native_measures(topo2, geom2)
+        except Exception as e:
+            oc.loud.append('integrate:{}:{}'.format(s2, type(e).__name__))
+        if nat is not None:
+            oc.checked.append('native_measures')
             fast = numpy.array([pe.vol for pe in elems2])
             if nat.shape != fast.shape or (len(nat) and abs(nat - fast).max() > 1e-8):
                 raise core.HarnessError('native element measures {} differ from the fast observation {} in {}'.format(nat, fast, st2.history()))
@@ -655,13 +755,21 @@ def transition(st, op, native=False, confirm=False):
     if st2.kind in ('domain', 'product'):
         check_domain_extras(st2, oc, native=native, confirm=confirm)
         if name == 'trim' and st.kind == 'domain' and not oc.violations:
-            trim_pair_oracle(st, op, oc)
+            trim_pair_oracle(st, op, oc, done=(topo2, elems2))
     if oc.violations:
         return None, oc
     return st2, oc
 
 
 # ------------------------------------------------------------------------------------------------ exploration
+
+def vkey(mesh, key):
+    '''violation key = category:class signature.  On a mesh where two elements share MORE than one face (two elements around a
+    period) every face lookup by neighbour index is ambiguous; findings there are keyed by that root cause.'''
+    if Ctx.get(mesh).get('multiadj'):
+        return 'multiadj:' + key.split(':')[0]
+    return key
+
 
 def opname(op):
     return op[0]
@@ -678,7 +786,7 @@ def level_for(tier, mesh, ops):
         # degenerate mesh (two elements around the period): kept small, it only has to keep its own finding alive
         return 'core' if depth == 0 else ('tail' if depth == 1 else None)
     if depth <= 1:
-        return 'full'
+        return 'full' if tier == 'thorough' else 'quick'
     if depth == 2:
         if tier == 'quick':
             return 'tail' if chain_has(ops, ('trim', 'trimc', 'refined_by')) else None
@@ -689,7 +797,7 @@ def level_for(tier, mesh, ops):
 def native_sample(ops):
     if len(ops) <= 1:
         return True
-    return int(core.h8(json.dumps(ops)), 16) % 8 == 0
+    return int(core.h8(json.dumps(ops)), 16) % 16 == 0
 
 
 def explore(st, tier, res, seen):
@@ -703,15 +811,19 @@ def explore(st, tier, res, seen):
         st2, oc = transition(st, op, native=native_sample(ops2))
         res.count('traces_validated_against_impl')
         chain = '/'.join(o[0] for o in ops2)
+        for c in oc.checked:
+            res.count('checked_' + c)
         for l in oc.loud:
             res.count('loud_failures')
             res.distinct('distinct_outcomes', 'loud:' + l)
             res.distinct('loud_kinds', l)
             LOUD.setdefault(l, {'mesh': st.mesh, 'ops': ops2})
         for n in oc.notes:
+            NOTES[n] = NOTES.get(n, 0) + 1
             res.count('not_compared')
             res.distinct('distinct_outcomes', 'note:' + n.split(':')[0] + ':' + n.split(':')[1])
         for key, text in oc.violations:
+            key = vkey(st.mesh, key)
             res.violation(key, '{} after {} on {}: {}'.format(key, json.dumps(ops2), st.mesh, text), {'mesh': st.mesh, 'ops': ops2})
         if oc.violations:
             res.distinct('distinct_outcomes', 'violation:' + oc.violations[0][0])
@@ -733,6 +845,7 @@ def explore(st, tier, res, seen):
 
 
 LOUD = {}
+NOTES = {}
 
 NCHUNK = {'quick': 10, 'thorough': 24}
 
@@ -756,6 +869,7 @@ def run_shard(spec, tier, seed):
         oc = Outcome()
         check_domain_extras(st, oc, native=True)
         for key, text in oc.violations:
+            key = vkey(st.mesh, key)
             res.violation(key, '{} on the initial mesh {}: {}'.format(key, st.mesh, text), {'mesh': st.mesh, 'ops': []})
     level = level_for(tier, st.mesh, [])
     first = TS.menu(st.info(), level)
@@ -766,15 +880,19 @@ def run_shard(spec, tier, seed):
         res.count('evaluations')
         st2, oc = transition(st, op, native=True)
         res.count('traces_validated_against_impl')
+        for c in oc.checked:
+            res.count('checked_' + c)
         for l in oc.loud:
             res.count('loud_failures')
             res.distinct('distinct_outcomes', 'loud:' + l)
             res.distinct('loud_kinds', l)
             LOUD.setdefault(l, {'mesh': st.mesh, 'ops': [op]})
         for n in oc.notes:
+            NOTES[n] = NOTES.get(n, 0) + 1
             res.count('not_compared')
             res.distinct('distinct_outcomes', 'note:' + n.split(':')[0] + ':' + n.split(':')[1])
         for key, text in oc.violations:
+            key = vkey(st.mesh, key)
             res.violation(key, '{} after {} on {}: {}'.format(key, json.dumps([op]), st.mesh, text), {'mesh': st.mesh, 'ops': [op]})
         if st2 is None:
             continue
@@ -805,13 +923,13 @@ def replay(witness):
     if not witness.get('ops'):
         check_domain_extras(st, oc, native=True, confirm=True)
         if oc.violations:
-            return '{}: {}'.format(*oc.violations[0])
+            return '{}: {}'.format(vkey(st.mesh, oc.violations[0][0]), oc.violations[0][1])
         return None
     for i, op in enumerate(witness['ops']):
         st2, oc = transition(st, op, native=True, confirm=True)
         if oc.violations:
             key, text = oc.violations[0]
-            return '{} after {} on {}: {}'.format(key, json.dumps(witness['ops'][:i + 1]), witness['mesh'], text)
+            return '{} after {} on {}: {}'.format(vkey(st.mesh, key), json.dumps(witness['ops'][:i + 1]), witness['mesh'], text)
         if st2 is None:
             return None
         st = st2
